@@ -62,7 +62,7 @@ let handle kind a =
   | "hist" ->
       if a.(0) = "mt" then None else begin
         let f = parse_frames a.(1) and idx = parse_index a.(2) and ops = parse_ops a.(3) in
-        let steps = run f idx (init f) ops in
+        let steps = run pinned_tree_repaired f idx (init f) ops in
         let rec go acc = function
           | [] -> List.rev acc
           | (o, vp) :: r ->
